@@ -37,6 +37,17 @@ fn has_nested_below(m: &MMappings, s: &[u32]) -> bool {
 /// The hypotheses under which C03/C04/C11 promise their laws, as far as this harness knows them:
 /// named class names carry no `$`; a nested class with a named name has a package-less one and
 /// all its ancestors are present with named names; documentation strings are non-empty.
+/// `good` for a version behind the root: its named names may contain `$` (they never go through contract . extend; the
+/// answer for the version is still the history's set with the names extended, see `ref_extend`)
+pub fn good_step(m: &MMappings) -> bool {
+	m.ns.len() == 2 && m.classes.iter().all(|c| {
+		let s = src(c);
+		match &c.names[NAMED] {
+			None => true,
+			Some(b) => !is_nested(s) || (!b.contains(&('/' as u32)) && ancestors_named(m, s)),
+		}
+	})
+}
 pub fn good(m: &MMappings) -> bool {
 	m.ns.len() == 2 && m.classes.iter().all(|c| {
 		let s = src(c);
@@ -78,6 +89,15 @@ fn fresh_class_named(rng: &mut Rng, nested: bool) -> S {
 /// the named name for a class: nested classes often take a simple name that ANOTHER nested class (in another outer class,
 /// at any depth) already has — `Alpha$Builder` and `Delta$Builder` are both just `Builder` before the extension
 fn class_named_in(rng: &mut Rng, m: &MMappings, nested: bool) -> S {
+	// a named name whose OWN simple name contains `$` (`Class$D`, `org/example/Outer$Gen`): the version graph works on
+	// contracted names, so a `$` seen when the names are extended at the end belongs to the simple name and the outer
+	// class's name still has to be put in front of it (seed C05-b7: an "idempotent" extension skipped such names).
+	// Only edits produce these, never the root (contract . extend is not the identity on them).
+	if rng.chance(1, 8) {
+		let mut n = fresh_class_named(rng, nested);
+		n.push('$' as u32); n.extend(if rng.chance(1, 3) { cps_str(&rng.range(1, 9).to_string()) } else { fresh_simple(rng) });
+		return n;
+	}
 	if nested && rng.chance(1, 3) {
 		let taken: Vec<&S> = m.classes.iter().filter(|c| is_nested(src(c))).filter_map(|c| c.names[NAMED].as_ref()).collect();
 		if !taken.is_empty() { return (*rng.pick(&taken[..])).clone(); }
